@@ -243,8 +243,21 @@ where
     fn parse(input: ParseStream) -> syn::Result<Self> {
         let mut attrs = ParseableAttributes::default();
 
+        // Attributes that carry a value: a repeated one would silently replace the earlier one.
+        let mut seen_attrs: Vec<String> = Vec::new();
+
         while !input.is_empty() {
             let ident: Ident = input.parse()?;
+            if ident == "sanitize" || ident == "validate" || ident == "derive" || ident == "default" {
+                let name = ident.to_string();
+                if seen_attrs.contains(&name) {
+                    let msg = format!(
+                        "Duplicated attribute `{name}`.\nAll the {name} rules must be specified within a single `{name}` attribute."
+                    );
+                    return Err(syn::Error::new(ident.span(), msg));
+                }
+                seen_attrs.push(name);
+            }
             if ident == "sanitize" {
                 if input.peek(Paren) {
                     let content;
